@@ -4,12 +4,13 @@
        constraints are affine after the pre-processing rewrites, through every stage of `compile` - domain tightening,
        flatten / simplify, the logic-constraint test, Exp::linearize, the main loop with its step bound, row-name
        de-duplication, variable sorting, coefficient extraction, published domains;
-   (2) FOR THE ARITHMETIC-WITH-ABS FRAGMENT (C01_projection_abs): constraints and objective built from + - * /
-       (by constants), unary minus and abs(.) nested to any depth.  Here the compiler creates auxiliary variables
-       ($abs_k, $abs_k_positive), pushes one-sided or big-M rows back into its queue and relies on the bound analysis
-       (whose box must be, and is proved to be, implied by the domains the compiler emits); the statement is a genuine
-       projection: extensions on the auxiliary names exist in one direction and are forgotten in the other.
-   For models with min, max or logic nodes the statement below is the target; machine-checked for them are the
+   (2) FOR THE ARITHMETIC FRAGMENT WITH ABS, MIN AND MAX (C01_projection_abs): constraints and objective built from
+       + - * / (by constants), unary minus, abs(.), min{..} and max{..} nested to any depth, no operand of a min / max
+       pruned as dominated.  Here the compiler creates auxiliary variables ($abs_k, $abs_k_positive, $max_k,
+       $max_k_select_i, ...), pushes one-sided, big-M or selector rows back into its queue and relies on the bound
+       analysis (whose box must be, and is proved to be, implied by the domains the compiler emits); the statement is
+       a genuine projection: extensions on the auxiliary names exist in one direction and are forgotten in the other.
+   For models with logic nodes or pruned operands the statement below is the target; machine-checked for them are the
    *_partial theorems (every lowering arm's row pattern in both directions, the soundness of all facts the rewrites
    rely on, the frame property of the main loop). *)
 From Coq Require Import QArith Reals List String.
@@ -48,12 +49,12 @@ Proof. intros m L AM HC. exact (compile_affine_projection m L (declared_used m) 
 Theorem C01_projection_affine_nonvacuous : affine_model m0 /\ exists L, compile m0 = inr L.
 Proof. split; [exact m0_affine|exact m0_compiles]. Qed.
 
-(* ---- proved end to end on the arithmetic-with-abs fragment.  abs_model m: well-formed domains, every declared variable
+(* ---- proved end to end on the arithmetic fragment with abs, min and max.  abs_model m: well-formed domains, every declared variable
    used, declared bounds not NaN and integer ranges within i32, sides and objective total arithmetic with abs over declared
    names, and the trace condition compile_trace m = true: the objective and every constraint the main loop takes from
-   its queue (source constraints and the rows the abs arm pushed back) is not an assertion, is not taken by the
-   logic-constraint test and, once rewritten by flatten / simplify, has only arithmetic and abs nodes over names declared
-   so far.  abs_modelb decides abs_model and is evaluated on every tied model. *)
+   its queue (source constraints and the rows the arms pushed back) is not an assertion, is not taken by the
+   logic-constraint test and, once rewritten by flatten / simplify, has only arithmetic, abs, min and max nodes over names
+   declared so far, with no operand of a min / max pruned as dominated (noprune).  abs_modelb decides abs_model and is evaluated on every tied model. *)
 Theorem C01_projection_abs :
   forall (m : model) (L : linmodel), abs_model m -> compile m = inr L ->
     forall rho : string -> R,
@@ -76,11 +77,15 @@ Proof. exact abs_modelb_sound. Qed.
 Theorem C01_projection_abs_nonvacuous :
   abs_model m1 /\ affine_modelb m1 = false /\ exists L, compile m1 = inr L /\ (List.length (lm_vars L) > 2)%nat.
 Proof. split; [exact m1_abs_model|split; [exact m1_not_affine|exact m1_compiles]]. Qed.
+(* ... and by a model with min and max in all three positions (one-sided rows and selector rows; nine variables) *)
+Theorem C01_projection_minmax_nonvacuous :
+  abs_model m2 /\ exists L, compile m2 = inr L /\ (List.length (lm_vars L) > 6)%nat.
+Proof. split; [exact (abs_modelb_sound m2 m2_in_fragment)|exact m2_compiles]. Qed.
 (* one call of Exp::linearize on this fragment, at any state satisfying the invariant: the specification that the
    induction carries (auxiliaries fresh, queue and rows only grow, the context is finite, over declared names, related to
    the value as the requirement says, and every point of the old state extends to the new one with the exact value) *)
 Theorem C01_linearize_abs_spec :
-  forall n e r s c s', okexp e = true -> INV s -> incl (xvars e) (keys s) -> tot e ->
+  forall n e r s c s', okexp e = true -> noprune (s_an s) e = true -> INV s -> incl (xvars e) (keys s) -> tot e ->
     lin n e r s = inr (c, s') -> lin_spec e r s c s'.
 Proof. exact lin_ok. Qed.
 
